@@ -150,9 +150,6 @@ def in_domain(js, method, cfg=None):
                 return 'pi-end'
             if stack and stack[-1] in G.RAWTEXT:
                 return 'markup-in-rawtext'
-        elif k in ('SC', 'EC'):
-            if stack and stack[-1] in G.RAWTEXT and method == 'html':
-                pass
     return None
 
 
@@ -297,7 +294,6 @@ def match_tokens(exp, obs, strip, method):
     """None when the observed tokens are what the property prescribes, else a description"""
     if isinstance(obs, tuple):
         return 'output is not well-formed: %s' % (obs[1],)
-    pres = 0
     stack = []
     i = j = 0
 
@@ -305,9 +301,6 @@ def match_tokens(exp, obs, strip, method):
         return outlib.norm_ws(t) if (strip and not any(stack)) else t
     exp = [list(t) for t in exp]
     obs = [list(t) for t in obs]
-    if strip:
-        # whitespace stripping may empty a text node altogether
-        pass
     while i < len(exp) or j < len(obs):
         e = exp[i] if i < len(exp) else None
         o = obs[j] if j < len(obs) else None
@@ -332,7 +325,6 @@ def match_tokens(exp, obs, strip, method):
             oa = [a for a in o[2] if a[0] not in optional]
             if ea != oa:
                 return 'attributes of <%s>: expected %r, observed %r' % (e[1], e[2], o[2])
-            # preserved space: pre/textarea, xml:space (as far as it is visible in the tokens' source stream)
         elif e[0] == 'text':
             if o[0] != 'text' or norm(e[1]) != norm(o[1]):
                 return 'text: expected %r, observed %r' % (e, o)
@@ -362,8 +354,6 @@ def syntax_check(js, text, method):
     n_end = sum(1 for t in toks if t[0] == 'end')
     if n_start != n_end:
         return 'non-void start tags %d, end tags %d' % (n_start, n_end)
-    if method == 'html' and '<![CDATA[' in text:
-        pass
     n_doctype = text.count('<!DOCTYPE')
     if n_doctype > 1:
         return 'more than one DOCTYPE'
@@ -381,11 +371,6 @@ def cfg_of(case):
     if case.get('nsprefixes'):
         c['nsprefixes'] = True
     return c
-
-
-def preserve_mask(js, method):
-    """for match_tokens: is each expected text token inside preserved space? (computed from the stream)"""
-    return None
 
 
 def oracle_case(case):
